@@ -291,3 +291,26 @@ fn shim_selftest_nested_map_of_sets() {
     assert!(m.remove(&k).is_some());
     assert!(m.get(&k).is_none() && m.len() == 1);
 }
+
+/// regression self-test for the shim cell layout (see shims/collections.rs `Slot`):
+/// two live entries keyed by PeerId whose value is a nested set, looked up through
+/// find() (symbolic cell index).  Failed spuriously with niche-encoded cells.
+#[kani::proof]
+#[kani::unwind(8)]
+fn shim_selftest_peer_key_two_entries() {
+    let mut m: HashMap<PeerId, HashSet<ConnectionId>> = HashMap::new();
+    if kani::any() {
+        let mut s = HashSet::new();
+        fill(&mut s);
+        m.insert(any_peer(), s);
+    }
+    let k = any_peer();
+    let id = any_id();
+    let before = m.get(&k).map_or(0, |s| s.len());
+    let had = m.get(&k).map_or(false, |s| s.contains(&id));
+    m.entry(k).or_default().remove(&id);
+    assert!(m.get(&k).map_or(false, |s| !s.contains(&id)));
+    assert!(m.get(&k).map_or(0, |s| s.len()) == before - had as usize);
+    assert!(m.len() <= 2);
+}
+
